@@ -772,6 +772,20 @@ func (s *efState) dfsParam(p *ssa.Parameter, seen map[ssa.Value]bool, set map[*E
 			}
 		}
 	}
+	// interface method calls that can run fn (enumerable ones: closedworld.go)
+	if idx >= 0 {
+		for _, site := range closedWorldOf(s.prog).invokeSites(s.fv.fns, fn) {
+			if _, isGo := site.(*ssa.Go); isGo {
+				continue
+			}
+			if a, ok := invokeArg(site, fn, idx); ok {
+				found = true
+				s.dfs(a, seen, set)
+			} else {
+				s.unknown(p, "receiver-of-invoke", set)
+			}
+		}
+	}
 	if _, inScope := s.scope[fn.Pkg]; inScope && fn.Parent() == nil && isExportedFn(fn) {
 		s.unknown(p, "caller-supplied", set)
 	} else if !found || dynOpen != "" {
@@ -815,6 +829,13 @@ func (s *efState) dfsCall(call *ssa.Call, resIdx int, seen map[ssa.Value]bool, s
 		}
 		if c.Method.Name() == "Unwrap" {
 			s.dfs(c.Value, seen, set)
+			return
+		}
+		// a method with an unexported name: the methods of that name in its package are all it can run (closedworld.go)
+		if ts, ok := s.invokeTargets(c); ok {
+			for _, t := range ts {
+				set[s.funNode(t, resIdx)] = true
+			}
 			return
 		}
 		s.unknown(call, "invoke:"+c.Method.Name(), set)
@@ -1566,7 +1587,8 @@ type puseKey struct {
 func (s *efState) callTargets(call *ssa.Call) []*ssa.Function {
 	c := call.Common()
 	if c.IsInvoke() {
-		return nil
+		ts, _ := s.invokeTargets(c)
+		return ts
 	}
 	if f := staticCallee(c); f != nil {
 		if inModule(f) && len(f.Blocks) > 0 && f.Pkg != s.errPkg {
@@ -1935,7 +1957,7 @@ func (s *efState) replaceAndSwallow(fns []*ssa.Function, out *EFOut) {
 						continue // external callee: its error is not one of ours
 					}
 				} else if !isPoll {
-					if _, isB := call.Common().Value.(*ssa.Builtin); isB || call.Common().IsInvoke() {
+					if _, isB := call.Common().Value.(*ssa.Builtin); isB || (call.Common().IsInvoke() && !s.invokeInScope(call.Common())) {
 						continue
 					}
 				}
